@@ -176,7 +176,7 @@ Lemma ptexts_cons O p ps t ts : ptext O p = Ok t -> ptexts O ps = Ok ts -> ptext
 Proof. intros H1 H2. unfold ptexts in *. cbn [mapM]. rewrite H1. cbn [bind]. rewrite H2. reflexivity. Qed.
 
 Ltac sx :=
-  cbn [bind py_in_dyn py_hashable' py_getitem_dyn py_dict_getitem py_dict_get_def py_isinstance_any isinstance_i
+  cbn [bind py_in_dyn py_hashable' py_getitem_dyn py_dict_getitem py_isinstance_any isinstance_i
        isinstance1 py_not py_and py_or py_is_none py_is_not_none py_eqv py_index nth_error pair_fst
        pair_snd fst snd py_unpack2 py_list_append cg_repr_val cg_format py_list py_class_name
        cg_list_concat].
@@ -340,10 +340,6 @@ Proof.
 Qed.
 
 (* ------------------------------------------------------------------ every mapper's get_paramlist_from_schema *)
-
-Definition pat_of (kv : list (pyval * pyval)) : option (option pystr) :=
-  if shas kv "pattern" then match sget kv "pattern" with Some (PStr p) => Some (Some p) | _ => None end
-  else Some None.
 
 Theorem StringMapper_paramlist O rec kv nums pat :
   nums_of O kv string_keys = Some nums -> pat_of kv = Some pat ->
@@ -516,19 +512,10 @@ Proof.
     cbn [ptext cg_format cg_repr bind]. rewrite rt_kv. unfold raw. rewrite !rt_raw1. reflexivity.
 Qed.
 
-Definition map_value_of (O : cg_oracle) (n : nat) (kv : list (pyval * pyval)) : option (option jfield) :=
-  let ap := getdef kv (s2p "additionalProperties") PNone in
-  if py_truthy ap then
-    match getdef kv (s2p "maxItems") PNone, getdef kv (s2p "minItems") PNone, field_of O n ap with
-    | PNone, PNone, Some v => Some (Some v)
-    | _, _, _ => None
-    end
-  else Some None.
-
 Theorem MapMapper_paramlist O n rec kv value :
   rec_spec O n rec ->
   py_truthy (getdef kv (s2p "patternProperties") PNone) = false ->
-  map_value_of O n kv = Some value ->
+  map_value_of (field_of O n) kv = Some value ->
   exists ps, MapMapper__get_paramlist_from_schema O rec (PDict kv) = Ok (PList ps)
              /\ ptexts O ps = Ok (map (rt O) (model_params (FMap value None))).
 Proof.
@@ -545,4 +532,224 @@ Proof.
     unfold mk. cbn [fst snd ptexts mapM ptext cg_format bind model_params map].
     rewrite rt_kv. unfold raw. rewrite rt_raw1, rt_raw, rt_app, rt_raw1. reflexivity.
   - injection Hv as <-. exists []. split; reflexivity.
+Qed.
+
+(* ------------------------------------------------------------------ the dispatch tables (closed computations) *)
+
+Lemma get_mapper_table :
+  get_mapper (cls_val (s2p "Enum")) = Ok (cls_val (s2p "EnumMapper"))
+  /\ get_mapper (cls_val (s2p "StructureReference")) = Ok (cls_val (s2p "StructureReferenceMapper"))
+  /\ get_mapper (cls_val (s2p "Map")) = Ok (cls_val (s2p "MapMapper"))
+  /\ get_mapper (cls_val (s2p "String")) = Ok (cls_val (s2p "StringMapper"))
+  /\ get_mapper (cls_val (s2p "Integer")) = Ok (cls_val (s2p "IntegerMapper"))
+  /\ get_mapper (cls_val (s2p "Number")) = Ok (cls_val (s2p "NumberMapper"))
+  /\ get_mapper (cls_val (s2p "Boolean")) = Ok (cls_val (s2p "BooleanMapper"))
+  /\ get_mapper (cls_val (s2p "Array")) = Ok (cls_val (s2p "ArrayMapper")).
+Proof. repeat split; vm_compute; reflexivity. Qed.
+
+Definition resolves (c d : string) : Prop :=
+  py_resolve_method class_mro class_defs (cls_val (s2p c)) (s2p "get_paramlist_from_schema") = Ok (s2p d).
+
+Lemma resolve_table :
+  resolves "EnumMapper" "EnumMapper" /\ resolves "StructureReferenceMapper" "StructureReferenceMapper"
+  /\ resolves "MapMapper" "MapMapper" /\ resolves "StringMapper" "StringMapper"
+  /\ resolves "IntegerMapper" "NumberMapper" /\ resolves "NumberMapper" "NumberMapper"
+  /\ resolves "BooleanMapper" "BooleanMapper" /\ resolves "ArrayMapper" "ArrayMapper"
+  /\ resolves "MultiFieldMapper" "MultiFieldMapper".
+Proof. unfold resolves. repeat split; vm_compute; reflexivity. Qed.
+
+Ltac method_by H :=
+  unfold METHOD_get_paramlist_from_schema; unfold resolves in H; rewrite H; cbn [bind]; reflexivity.
+
+Lemma METHOD_enum O rec s :
+  METHOD_get_paramlist_from_schema O rec (cls_val (s2p "EnumMapper")) s = EnumMapper__get_paramlist_from_schema O rec s.
+Proof. destruct resolve_table as (H & _). method_by H. Qed.
+Lemma METHOD_sref O rec s :
+  METHOD_get_paramlist_from_schema O rec (cls_val (s2p "StructureReferenceMapper")) s
+  = StructureReferenceMapper__get_paramlist_from_schema O rec s.
+Proof. destruct resolve_table as (_ & H & _). method_by H. Qed.
+Lemma METHOD_map O rec s :
+  METHOD_get_paramlist_from_schema O rec (cls_val (s2p "MapMapper")) s = MapMapper__get_paramlist_from_schema O rec s.
+Proof. destruct resolve_table as (_ & _ & H & _). method_by H. Qed.
+Lemma METHOD_string O rec s :
+  METHOD_get_paramlist_from_schema O rec (cls_val (s2p "StringMapper")) s = StringMapper__get_paramlist_from_schema O rec s.
+Proof. destruct resolve_table as (_ & _ & _ & H & _). method_by H. Qed.
+Lemma METHOD_integer O rec s :
+  METHOD_get_paramlist_from_schema O rec (cls_val (s2p "IntegerMapper")) s = NumberMapper__get_paramlist_from_schema O rec s.
+Proof. destruct resolve_table as (_ & _ & _ & _ & H & _). method_by H. Qed.
+Lemma METHOD_number O rec s :
+  METHOD_get_paramlist_from_schema O rec (cls_val (s2p "NumberMapper")) s = NumberMapper__get_paramlist_from_schema O rec s.
+Proof. destruct resolve_table as (_ & _ & _ & _ & _ & H & _). method_by H. Qed.
+Lemma METHOD_boolean O rec s :
+  METHOD_get_paramlist_from_schema O rec (cls_val (s2p "BooleanMapper")) s = BooleanMapper__get_paramlist_from_schema O rec s.
+Proof. destruct resolve_table as (_ & _ & _ & _ & _ & _ & H & _). method_by H. Qed.
+Lemma METHOD_array O rec s :
+  METHOD_get_paramlist_from_schema O rec (cls_val (s2p "ArrayMapper")) s = ArrayMapper__get_paramlist_from_schema O rec s.
+Proof. destruct resolve_table as (_ & _ & _ & _ & _ & _ & _ & H & _). method_by H. Qed.
+Lemma METHOD_multi O rec s :
+  METHOD_get_paramlist_from_schema O rec (cls_val (s2p "MultiFieldMapper")) s = MultiFieldMapper__get_paramlist_from_schema O rec s.
+Proof. destruct resolve_table as (_ & _ & _ & _ & _ & _ & _ & _ & H). method_by H. Qed.
+
+Lemma type_table :
+  py_getitem_dyn MODULE_type_name_to_field (PStr (s2p "string")) = Ok (cls_val (s2p "String"))
+  /\ py_getitem_dyn MODULE_type_name_to_field (PStr (s2p "integer")) = Ok (cls_val (s2p "Integer"))
+  /\ py_getitem_dyn MODULE_type_name_to_field (PStr (s2p "number")) = Ok (cls_val (s2p "Number"))
+  /\ py_getitem_dyn MODULE_type_name_to_field (PStr (s2p "boolean")) = Ok (cls_val (s2p "Boolean"))
+  /\ py_getitem_dyn MODULE_type_name_to_field (PStr (s2p "array")) = Ok (cls_val (s2p "Array")).
+Proof. repeat split; vm_compute; reflexivity. Qed.
+
+Lemma multi_any kv : cg_any (fun x => py_in_dyn x (PDict kv)) MODULE_multivals = Ok (is_multi kv).
+Proof.
+  unfold MODULE_multivals, is_multi. cbn [cg_any cg_iter map fst any_cond bind py_in_dyn py_hashable'].
+  destruct (shas kv "allOf"), (shas kv "anyOf"), (shas kv "oneOf"), (shas kv "not"); reflexivity.
+Qed.
+
+Lemma multi_loop kv :
+  is_multi kv = true ->
+  (t3 <- py_dict_items MODULE_multivals ;;
+   py_for_state t3 (fun x_item_4 s_cls_6 => (p5 <- py_unpack2 x_item_4 ;; (c <- (py_in_dyn (pair_fst p5) (PDict kv)) ;;
+     if c then (let v_cls_7 := (pair_snd p5) in (Ok v_cls_7)) else (Ok s_cls_6)))) cg_unbound)
+  = Ok (cls_val (multi_ctor kv)).
+Proof.
+  unfold MODULE_multivals, is_multi, multi_ctor.
+  cbn [py_dict_items map fst snd bind py_for_state for_state py_unpack2 pair_fst pair_snd py_in_dyn py_hashable'].
+  destruct (shas kv "allOf"), (shas kv "anyOf"), (shas kv "oneOf"), (shas kv "not"); intro H; try discriminate; reflexivity.
+Qed.
+
+Lemma field_toks_call f :
+  match f with FRef _ => True
+  | _ => field_toks f = call (model_ctor f) (model_params f ++ default_param (field_default f)) end.
+Proof.
+  destruct f; try exact I; cbn [field_toks model_ctor model_params field_default]; try reflexivity.
+  - rewrite app_assoc. reflexivity.
+  - rewrite app_assoc. reflexivity.
+  - rewrite !app_assoc. reflexivity.
+Qed.
+
+Lemma ref_len : py_len (PStr (s2p "#/definitions/")) = Ok (zint 14).
+Proof. vm_compute. reflexivity. Qed.
+Lemma ref_slice r : cg_slice_from (PStr r) (zint 14) = Ok (PStr (skipn 14 r)).
+Proof. reflexivity. Qed.
+
+Lemma multi_loop_ok kv (F : pyval -> pyval -> res pyval) :
+  is_multi kv = true ->
+  (forall x s, F x s = (p <- py_unpack2 x ;; c <- py_in_dyn (pair_fst p) (PDict kv) ;;
+                        if c then Ok (pair_snd p) else Ok s)) ->
+  (t3 <- py_dict_items MODULE_multivals ;; py_for_state t3 F cg_unbound) = Ok (cls_val (multi_ctor kv)).
+Proof.
+  intros H HF. unfold MODULE_multivals, is_multi, multi_ctor in *.
+  cbn [py_dict_items map fst snd bind py_for_state for_state].
+  rewrite !HF. cbn [py_unpack2 bind pair_fst pair_snd fst snd py_in_dyn py_hashable'].
+  destruct (shas kv "allOf") eqn:E1; cbn [bind]; rewrite !HF; cbn [py_unpack2 bind pair_fst pair_snd fst snd py_in_dyn py_hashable'];
+  destruct (shas kv "anyOf") eqn:E2; cbn [bind]; rewrite !HF; cbn [py_unpack2 bind pair_fst pair_snd fst snd py_in_dyn py_hashable'];
+  destruct (shas kv "oneOf") eqn:E3; cbn [bind]; rewrite !HF; cbn [py_unpack2 bind pair_fst pair_snd fst snd py_in_dyn py_hashable'];
+  destruct (shas kv "not") eqn:E4; cbn [bind]; try discriminate; reflexivity.
+Qed.
+
+Ltac close_branch Hps Hd :=
+  refine (eq_trans (code_tail_ok _ _ _ _ _ _ _ Hps Hd) _);
+  match goal with |- _ = Ok (PStr (rt ?O (field_toks ?f))) =>
+    let H := fresh in pose proof (field_toks_call f) as H; cbn beta iota in H; rewrite H;
+    rewrite rt_call, map_app; reflexivity
+  end.
+
+(* one level of convert_to_field_code on a schema document that is a dict *)
+Theorem convert_body_ok O n rec kv f :
+  rec_spec O n rec -> field_of_dict O (field_of O n) kv = Some f ->
+  convert_to_field_code_body O rec (PDict kv) (PList []) = Ok (PStr (rt O (field_toks f))).
+Proof.
+  intros Hr H. unfold convert_to_field_code_body. sx.
+  unfold field_of_dict in H. unfold dict_has in H |- *.
+  destruct (sget kv "$ref") as [r|] eqn:Eref.
+  - destruct (sget kv "default"); [discriminate|]. destruct r; try discriminate. injection H as <-.
+    sx. rewrite ref_len. sx. rewrite ref_slice. destruct sites_name as (_ & _ & _ & Hn).
+    cbn [field_toks]. rewrite (rt_str_name O _ _ [] Hn), rt_nil, app_nil_r. reflexivity.
+  - sx. unfold convert_field_to_schema_code_internal. rewrite multi_any. sx.
+    destruct (is_multi kv) eqn:Em.
+    + (* allOf / anyOf / oneOf / not *)
+      match goal with |- context [py_for_state _ ?F cg_unbound] =>
+        pose proof (multi_loop_ok kv F Em (fun x s => eq_refl)) as Hloop end.
+      match type of Hloop with bind ?A ?G = _ => destruct A as [t3|]; [|discriminate]; cbn [bind] in Hloop |- * end.
+      rewrite Hloop. sx. rewrite METHOD_multi.
+      destruct kv as [|[k0 v0] kv']; [discriminate|].
+      destruct (items_of (field_of O n) v0) as [[k fs]|] eqn:Ei; [|discriminate].
+      destruct (default_of O ((k0, v0) :: kv')) as [d|] eqn:Ed; [|discriminate]. injection H as <-.
+      destruct (MultiFieldMapper_paramlist O n rec k0 v0 kv' k fs (multi_ctor ((k0, v0) :: kv')) Hr Ei) as (ps & Eps & Hps).
+      rewrite Eps. cbn [bind]. close_branch Hps Ed.
+    + sx. unfold dict_has. destruct (sget kv "enum") as [e|] eqn:Ee.
+      * (* enum *)
+        destruct e; try discriminate. destruct (default_of O kv) as [d|] eqn:Ed; [|discriminate].
+        destruct (mapO (lit_of O) l) as [ls|] eqn:El; [|discriminate]. injection H as <-.
+        sx. destruct get_mapper_table as (-> & _). sx. rewrite METHOD_enum.
+        destruct (EnumMapper_paramlist O rec kv l ls Ee El) as (ps & Eps & Hps).
+        rewrite Eps. cbn [bind]. close_branch Hps Ed.
+      * sx. rewrite get_def_dict. sx.
+        assert (Hcase : (py_eq (getdef kv (s2p "type") (PStr (s2p "object"))) (PStr (s2p "object")) = true
+                         /\ object_of O (field_of O n) kv = Some f)
+                        \/ (exists t, getdef kv (s2p "type") (PStr (s2p "object")) = PStr t
+                                      /\ pystr_eqb t (s2p "object") = false /\ typed_of O (field_of O n) kv t = Some f)).
+        { unfold getdef. destruct (sget kv "type") as [t|].
+          - destruct t; try discriminate. unfold typed_of in H |- *. cbn [py_eq].
+            destruct (pystr_eqb s (s2p "object")) eqn:Eo.
+            + left. split; [reflexivity | exact H].
+            + right. exists s. rewrite Eo. repeat split; exact H.
+          - left. split; [cbn [py_eq]; apply pystr_eqb_refl | exact H]. }
+        clear H. destruct Hcase as [(-> & H) | (t & Et & Eo & H)].
+        -- (* object / map *)
+           sx. unfold dict_has. unfold object_of in H. unfold dict_has in H.
+           destruct (sget kv "properties") as [pv|] eqn:Ep.
+           ++ destruct pv; try discriminate.
+              destruct (required_of (sget kv "required")) as [req|] eqn:Ereq; [|discriminate].
+              destruct (default_of O kv) as [d|] eqn:Ed; [|discriminate].
+              destruct (mapO (prop_of (field_of O n)) kv0) as [props|] eqn:Eprops; [|discriminate]. injection H as <-.
+              sx. destruct get_mapper_table as (_ & -> & _). sx. rewrite METHOD_sref.
+              destruct (StructureReferenceMapper_paramlist O n rec kv kv0 req props Hr Ep Ereq Eprops) as (ps & Eps & Hps).
+              rewrite Eps. cbn [bind]. close_branch Hps Ed.
+           ++ destruct (py_truthy (getdef kv (s2p "patternProperties") PNone)) eqn:Epp; [discriminate|].
+              destruct (map_value_of (field_of O n) kv) as [value|] eqn:Ev; [|discriminate].
+              destruct (default_of O kv) as [d|] eqn:Ed; [|discriminate]. injection H as <-.
+              sx. destruct get_mapper_table as (_ & _ & -> & _). sx. rewrite METHOD_map.
+              destruct (MapMapper_paramlist O n rec kv value Hr Epp Ev) as (ps & Eps & Hps).
+              rewrite Eps. cbn [bind]. close_branch Hps Ed.
+        -- (* the table type_name_to_field *)
+           rewrite Et. cbn [py_eq]. rewrite Eo. cbn [py_for_return for_return]. sx.
+           destruct type_table as (Ts & Ti & Tn & Tb & Ta).
+           unfold typed_of in H. rewrite Eo in H.
+           destruct (pystr_eqb t (s2p "string")) eqn:Es.
+           { apply pystr_eqb_spec in Es. subst t. rewrite Ts. sx.
+             destruct (nums_of O kv string_keys) as [nums|] eqn:En; [|discriminate].
+             destruct (pat_of kv) as [pat|] eqn:Epat; [|discriminate].
+             destruct (default_of O kv) as [d|] eqn:Ed; [|discriminate]. injection H as <-.
+             destruct get_mapper_table as (_ & _ & _ & -> & _). sx. rewrite METHOD_string.
+             destruct (StringMapper_paramlist O rec kv nums pat En Epat) as (ps & Eps & Hps).
+             rewrite Eps. cbn [bind]. close_branch Hps Ed. }
+           destruct (pystr_eqb t (s2p "integer")) eqn:Ei.
+           { apply pystr_eqb_spec in Ei. subst t. rewrite Ti. sx. cbn [orb] in H.
+             destruct (nums_of O kv number_keys) as [nums|] eqn:En; [|discriminate].
+             destruct (default_of O kv) as [d|] eqn:Ed; [|discriminate]. injection H as <-.
+             destruct get_mapper_table as (_ & _ & _ & _ & -> & _). sx. rewrite METHOD_integer.
+             destruct (NumberMapper_paramlist O rec kv nums (s2p "Integer") En) as (ps & Eps & Hps).
+             rewrite Eps. cbn [bind]. close_branch Hps Ed. }
+           destruct (pystr_eqb t (s2p "number")) eqn:Enu.
+           { apply pystr_eqb_spec in Enu. subst t. rewrite Tn. sx. cbn [orb] in H.
+             destruct (nums_of O kv number_keys) as [nums|] eqn:En; [|discriminate].
+             destruct (default_of O kv) as [d|] eqn:Ed; [|discriminate]. injection H as <-.
+             destruct get_mapper_table as (_ & _ & _ & _ & _ & -> & _). sx. rewrite METHOD_number.
+             destruct (NumberMapper_paramlist O rec kv nums (s2p "Number") En) as (ps & Eps & Hps).
+             rewrite Eps. cbn [bind]. close_branch Hps Ed. }
+           cbn [orb] in H.
+           destruct (pystr_eqb t (s2p "boolean")) eqn:Eb.
+           { apply pystr_eqb_spec in Eb. subst t. rewrite Tb. sx.
+             destruct (default_of O kv) as [d|] eqn:Ed; [|discriminate]. injection H as <-.
+             destruct get_mapper_table as (_ & _ & _ & _ & _ & _ & -> & _). sx. rewrite METHOD_boolean.
+             destruct (BooleanMapper_paramlist O rec kv) as (ps & Eps & Hps).
+             rewrite Eps. cbn [bind]. close_branch Hps Ed. }
+           destruct (pystr_eqb t (s2p "array")) eqn:Ear; [|discriminate].
+           apply pystr_eqb_spec in Ear. subst t. rewrite Ta. sx.
+           destruct (nums_of O kv array_keys) as [flags|] eqn:En; [|discriminate].
+           destruct (items_of (field_of O n) (getdef kv (s2p "items") PNone)) as [[k fs]|] eqn:Eit; [|discriminate].
+           destruct (default_of O kv) as [d|] eqn:Ed; [|discriminate]. injection H as <-.
+           destruct get_mapper_table as (_ & _ & _ & _ & _ & _ & _ & ->). sx. rewrite METHOD_array.
+           destruct (ArrayMapper_paramlist O n rec kv flags k fs Hr En Eit) as (ps & Eps & Hps).
+           rewrite Eps. cbn [bind]. close_branch Hps Ed.
 Qed.
